@@ -145,7 +145,7 @@ class Collector:
             if isinstance(v, (int, float)) and isinstance(self.extra.get(k), (int, float)):
                 self.extra[k] += v
             elif isinstance(v, list) and isinstance(self.extra.get(k), list):
-                self.extra[k] = (self.extra[k] + v)[:50]
+                self.extra[k] = (self.extra[k] + v)[:6]
             elif isinstance(v, dict) and isinstance(self.extra.get(k), dict):
                 for kk, vv in v.items():
                     if isinstance(vv, (int, float)):
